@@ -1141,7 +1141,15 @@ func (ex *Exec) forkTableIndex(s *astate, fr *aframe, x *ssa.IndexAddr) []*astat
 		}
 		elems, ok := constArrayOf(g)
 		if !ok {
-			return nil
+			// not a literal of constants: what the initialiser left in it, when nothing can write it later
+			at, isArr := g.Type().Underlying().(*types.Pointer).Elem().Underlying().(*types.Array)
+			if !isArr || at.Len() > 256 || !ex.seedGlobal(s, g) {
+				return nil
+			}
+			elems = nil
+			if n < 0 {
+				n = int(at.Len())
+			}
 		}
 		if n < 0 {
 			n = len(elems)
